@@ -205,6 +205,13 @@ def r15_4(ctx):
             incl = "range(start, end + 1)" in b and "range(end, start + 1)" in o
     else:
         incl = any("range(min(start, end), max(start, end) + 1)" in t for t in txts)
+        # ordered-swap idiom:  lo, hi = (end, start) if start > end else (start, end); range(lo, hi + 1)
+        for n in ast.walk(lp):
+            if isinstance(n, ast.Assign) and isinstance(n.targets[0], ast.Tuple) and len(n.targets[0].elts) == 2:
+                a, b = [norm(e) for e in n.targets[0].elts]
+                if norm(n.value) in ("(end, start) if start > end else (start, end)", "(start, end) if start <= end else (end, start)", "(min(start, end), max(start, end))"):
+                    if any(f"range({a}, {b} + 1)" in t for t in txts):
+                        incl = True
     checks.append((incl, "a range is expanded inclusively in whichever order it was written (a:b == b:a)"))
     rets = [s for s in body_walk(fi.node) if isinstance(s, ast.Return)]
     checks.append((bool(rets) and all("sorted(" in norm(r.value) and "set(" in norm(r.value) for r in rets), "result is sorted and de-duplicated"))
